@@ -39,7 +39,7 @@ using opentelemetry::common::AttributeValue;
 
 namespace {
 
-int g_depth = 7;
+int g_depth = 8;
 
 constexpr int kOverflow = -1, kUnknown = -2;
 // attribute sets are {"k": int32 id}; returns the id, kOverflow for the overflow set, kUnknown otherwise
@@ -97,9 +97,15 @@ void check_collection(vf::Ctx &c, const std::vector<Point> &got, const std::vect
     bool own = subset_by_bits ? ((p.value & ~w) == 0) : (p.value >= 0 && p.value <= w);
     CHECK(c, own, "C08:series:foreign-measurements", vf::sfmt("series s%d holds measurements that were not recorded with its attribute set in this scope", p.id) + tail);
   }
-  CHECK(c, sum == total, vf::sfmt("C08:overflow:total-differs:%s", temp),
-        (subset_by_bits ? vf::sfmt("the reported series add up to 0x%llx, recorded in scope: 0x%llx (bit i = i-th Record)", (unsigned long long)sum, (unsigned long long)total)
-                        : vf::sfmt("the reported series add up to %lld, recorded in scope: %lld", (long long)sum, (long long)total)) + tail);
+  if (sum != total) {
+    // distinguishing feature: every regular series is complete, so what is missing was folded into the overflow
+    // series and lost there
+    bool regular_complete = has_overflow;
+    for (auto &p : got) if (p.id != kOverflow) regular_complete &= (want.count(p.id) && p.value == want[p.id]);
+    c.fail(vf::sfmt(regular_complete ? "C08:overflow:overflow-series-lost-measurements:%s" : "C08:overflow:total-differs:%s", temp),
+           (subset_by_bits ? vf::sfmt("the reported series add up to 0x%llx, recorded in scope: 0x%llx (bit i = i-th Record)", (unsigned long long)sum, (unsigned long long)total)
+                           : vf::sfmt("the reported series add up to %lld, recorded in scope: %lld", (long long)sum, (long long)total)) + tail);
+  }
   if (want.size() < limit) {
     CHECK(c, !has_overflow, vf::sfmt("C08:overflow:premature:%s", temp), vf::sfmt("an overflow series is reported although only %zu distinct sets occurred", want.size()) + tail);
     for (auto &w : want) CHECK(c, seen.count(w.first), vf::sfmt("C08:series:missing:%s", temp), vf::sfmt("set s%d has no series although the limit is not reached", w.first) + tail);
@@ -272,7 +278,7 @@ void setup(vf::Options &o) {
   o.split_depth = 4;
   o.deadline_s = o.thorough ? 1200 : 150;
   o.table_bits = 24;
-  g_depth = atoi(o.get("depth", o.thorough ? "9" : "7").c_str());
+  g_depth = atoi(o.get("depth", o.thorough ? "9" : "8").c_str());
 }
 
 }  // namespace
